@@ -76,6 +76,15 @@ def run(rep: Report, tier: str) -> None:
     rep.rule("R20.1", "the two validators perform the same rejecting checks; duplicates are checked on cast values")
     loaded_table_checks_on_every_path(P, rep, "R20.1")
     integer_csv_guard(P, rep, "R20.3")
+    # ---- R20.5 the pandas-side validator re-reads what it is given: nothing on its path is memoised on a path / name while reading content ----
+    rep.rule("R20.5", "validate_dataset side: no memoised function on the file-parsing path whose answer depends on file content, the environment or process state")
+    from sa import globalsx as _gx
+    n5 = 0
+    for f_, why_, line_ in _gx.memo_findings(P, ("vtlengine.files", "vtlengine.API")):
+        n5 += 1
+        rep.add(Finding("R20.5", f"R20.5/memo/{f_.qualname}", f_.module.rel, line_, f_.qualname,
+                        f"memoised function on the validation path {why_}: validate_dataset() then judges a file by what an earlier call saw, while run() (DuckDB reads the file itself) sees the current content"))
+    rep.instance("R20.5", "memoised-functions-on-the-parsing-path", nontrivial=False, sample={"findings": n5})
     # ---- R20.4 what the run-side normaliser does with spellings and with values that are not periods ----
     rep.rule("R20.4", "Time_Period normalisation on the run side: every accepted spelling -> canonical text; a non-null value that is no period is never turned into NULL (validate_dataset rejects it)")
     from sa.checks.c19 import period_limits
